@@ -29,6 +29,7 @@ EXPLANATION = (
     "misuse guards and the y[level] branch. R15.5 no response => none. R15.6 prop columns and guards. Not decided: "
     "the point-wise meaning of the response columns."
     " R15.8 built-in helpers win over the caller's names (C11's R11.1 / R11.2)."
+    " R15.9 the full coding used for the response is the identity over the caller's level list, labels in the same order (C04's R4.2)."
 )
 ASSUMPTIONS = [
     "polarity/meaning of np.where(x == reference, 1, 0) is a runtime fact; only the plumbing into it is decided",
@@ -208,7 +209,7 @@ def r15_3(prog, rep):
         body = [unparse(s) for s in guard[0].body]
         from . import shared as _sh
         ind = None
-        if len(guard[0].body) == 1 and isinstance(guard[0].body[0], ast.Assign) and unparse(guard[0].body[0].targets[0]) == "value":
+        if len(guard[0].body) == 1 and isinstance(guard[0].body[0], ast.Assign) and unparse(guard[0].body[0].targets[0]) in ("value", "self.value"):
             ind = _sh.indicator_of(guard[0].body[0].value)
         obl(rep, ec, guard[0], "R15.3", ind is not None and "self.reference" in ind,
             "the y[level] branch builds a single 0/1 indicator column from the comparison with the level", str(body))
